@@ -222,4 +222,25 @@ mod tests {
 
         Ok(())
     }
+
+    #[tokio::test]
+    async fn test_read_header_with_truncated_text() {
+        let raw_header = b"##fileformat=VCFv4.3
+#CHROM	POS	ID	REF	ALT	QUAL	FILTER	INFO	FORMAT	sample0
+";
+
+        let mut data = vec![
+            b'B', b'C', b'F', // magic
+            0x02, 0x02, // major_version, minor_version
+        ];
+        data.extend(((raw_header.len() + 1) as u32).to_le_bytes()); // l_text
+        data.extend(&raw_header[..raw_header.len() - 3]); // text, cut inside the sample name
+
+        let mut reader = &data[..];
+
+        assert!(matches!(
+            read_header(&mut reader).await,
+            Err(e) if e.kind() == io::ErrorKind::UnexpectedEof
+        ));
+    }
 }
